@@ -242,10 +242,16 @@ struct QueueBox {
 	Queue & get() { return *p; }
 	// replace the queue by a copy (or move) of itself constructed in storage filled with `fill`
 	template <typename F>
-	void rebuild(bool move, int fill, F beforeDestroy) {
+	void rebuild(bool move, int fill, F beforeDestroy, bool assign = false) {
 		int o = 1 - cur;
 		std::memset(storage[o], fill, sizeof(Queue));
-		Queue * n = move ? new (storage[o]) Queue(std::move(*p)) : new (storage[o]) Queue(*p);
+		Queue * n;
+		if(assign) {
+			// default-construct, then copy- / move-ASSIGN (the other way to obtain a copy)
+			n = new (storage[o]) Queue();
+			if(move) *n = std::move(*p); else *n = *p;
+		}
+		else n = move ? new (storage[o]) Queue(std::move(*p)) : new (storage[o]) Queue(*p);
 		beforeDestroy();     // objects that refer to the old queue (DisableQueueNotify) end before it does
 		p->~Queue();
 		p = n; cur = o;
@@ -375,12 +381,18 @@ struct World {
 			else res("false");
 		}
 		else if(op == "clear") { q.clearEvents(); res("unit"); }
-		else if(op == "qcopy" || op == "qmove") {
+		else if(op == "qselfassign") {
+			// copy-assignment from itself changes nothing (through an alias, so that the compiler does not see it)
+			Queue * alias = box.p;
+			*box.p = *alias;
+			res("unit");
+		}
+		else if(op == "qcopy" || op == "qmove" || op == "qassign" || op == "qmoveassign") {
 			// replace the queue by a copy / move of itself built over storage filled with the given byte;
 			// pending events are not copied; listeners and filters are, as new nodes: they get fresh ids in
 			// (event, list) order, filters last
-			bool mv = op == "qmove";
-			box.rebuild(mv, (int)c.n(1), [this]() { dqn.clear(); });
+			bool mv = op == "qmove" || op == "qmoveassign";
+			box.rebuild(mv, (int)c.n(1), [this]() { dqn.clear(); }, op == "qassign" || op == "qmoveassign");
 			if(!mv) {
 				handles.clear(); fhandles.clear();
 				long base = nextId;
